@@ -346,7 +346,7 @@ fn mk_lohg(s: &[usize], t: &[usize], nodes: usize, edges: &[(usize, &[usize], &[
     let mut f = LOHG::empty();
     f.hypergraph.nodes = vec![0; nodes];
     for (x, es, et) in edges {
-        f.new_edge(Lab(*x), Hyperedge { sources: nids(es.to_vec()), targets: nids(et.to_vec()) });
+        f.new_edge(Lab(*x), (nids(es.to_vec()), nids(et.to_vec())));
     }
     f.sources = nids(s.to_vec());
     f.targets = nids(t.to_vec());
